@@ -24,9 +24,11 @@ struct Edge {
 struct Node {
     stem: String,
     name: String,
-    /// 0 struct, 1 tagged enum, 2 alias, 3 unit enum (leaf), 4 generic struct Wrap<T> (leaf), 5 const
+    /// 0 struct, 1 tagged enum, 2 alias, 3 unit enum (leaf), 4 generic struct Wrap<T> (leaf), 5 const, 6 generic struct Pair<A, B> (leaf)
     kind: u8,
     renamed: Option<String>,
+    /// a struct source with a type parameter `P` of its own
+    generic: bool,
 }
 
 #[derive(Clone, Debug)]
@@ -37,8 +39,11 @@ struct Model {
     acyclic: bool,
 }
 
-fn wrap(via: &str, target: &str, generic: Option<&str>, rng: &mut Rng) -> String {
+fn wrap(via: &str, target: &str, generic: Option<&str>, pair: Option<&str>, rng: &mut Rng) -> String {
     match via {
+        // the item's own type parameter P and a real item in one type expression
+        "own-param-pair" => format!("{}<P, {target}>", pair.unwrap_or("Pair")),
+        "own-param-in-map" => format!("HashMap<String, {}<Vec<{target}>, P>>", pair.unwrap_or("Pair")),
         "direct" => target.to_string(),
         "vec" => format!("Vec<{target}>"),
         "option" => format!("Option<{target}>"),
@@ -78,12 +83,17 @@ fn gen_model(rng: &mut Rng, n: usize, edge_bits: Option<u64>, consts: bool) -> M
             _ => format!("Z{}", cap(&st)),
         };
         let renamed = if kind != 2 && rng.chance(1, 5) { Some(format!("{}Rn", cap(&st))) } else { None };
-        nodes.push(Node { stem: st, name, kind, renamed });
+        let generic = kind == 0 && rng.chance(1, 3);
+        nodes.push(Node { stem: st, name, kind, renamed, generic });
     }
     // a generic wrapper usable as `Wrap<T>` (it is an ordinary node of the graph: a leaf)
     let wst = stems.fresh(rng);
     let wrap_idx = nodes.len();
-    nodes.push(Node { stem: wst.clone(), name: format!("W{}", cap(&wst)), kind: 4, renamed: None });
+    nodes.push(Node { stem: wst.clone(), name: format!("W{}", cap(&wst)), kind: 4, renamed: None, generic: false });
+    // and a two-parameter one, `Pair<A, B>`
+    let pst = stems.fresh(rng);
+    let pair_idx = nodes.len();
+    nodes.push(Node { stem: pst.clone(), name: format!("P{}", cap(&pst)), kind: 6, renamed: None, generic: false });
     let mut edges = vec![];
     let sources: Vec<usize> = (0..n).filter(|&i| nodes[i].kind <= 2).collect();
     let mut pairs: Vec<(usize, usize)> = vec![];
@@ -105,16 +115,19 @@ fn gen_model(rng: &mut Rng, n: usize, edge_bits: Option<u64>, consts: bool) -> M
             1 => *rng.pick(&["newtype-variant", "newtype-variant", "struct-variant-field"]),
             _ => "alias-target",
         };
-        let via = *rng.pick(&VIAS);
+        let via = if nodes[*a].generic && rng.coin() { *rng.pick(&["own-param-pair", "own-param-in-map"]) } else { *rng.pick(&VIAS) };
         edges.push(Edge { from: *a, to: *b, position, via });
         if via.contains("generic-arg") {
             edges.push(Edge { from: *a, to: wrap_idx, position, via: "direct" });
+        }
+        if via.starts_with("own-param") {
+            edges.push(Edge { from: *a, to: pair_idx, position, via: "direct" });
         }
     }
     if consts && rng.chance(1, 3) && n > 0 {
         let cst = stems.fresh(rng);
         let ci = nodes.len();
-        nodes.push(Node { stem: cst.clone(), name: format!("{}_C", cst.to_uppercase()), kind: 5, renamed: None });
+        nodes.push(Node { stem: cst.clone(), name: format!("{}_C", cst.to_uppercase()), kind: 5, renamed: None, generic: false });
         let to = rng.below(n);
         edges.push(Edge { from: ci, to, position: "const-type", via: "direct" });
     }
@@ -146,14 +159,23 @@ fn gen_model(rng: &mut Rng, n: usize, edge_bits: Option<u64>, consts: bool) -> M
 fn render(m: &Model, rng: &mut Rng) -> String {
     let mut s = String::new();
     let wrap_name = m.nodes.iter().find(|n| n.kind == 4).map(|n| n.name.clone());
+    let pair_name = m.nodes.iter().find(|n| n.kind == 6).map(|n| n.name.clone());
     for &i in &m.order {
         let n = &m.nodes[i];
         let ren = n.renamed.as_ref().map(|r| format!("#[serde(rename = \"{r}\")]\n")).unwrap_or_default();
-        let my: Vec<&Edge> = m.edges.iter().filter(|e| e.from == i && !(e.via == "direct" && m.nodes[e.to].kind == 4 && e.position != "const-type" && m.edges.iter().any(|x| x.from == i && x.via.contains("generic-arg")))).collect();
-        let ty_of = |e: &Edge, rng: &mut Rng| wrap(e.via, &m.nodes[e.to].name, wrap_name.as_deref(), rng);
+        let my: Vec<&Edge> = m
+            .edges
+            .iter()
+            .filter(|e| e.from == i && !(e.via == "direct" && m.nodes[e.to].kind == 4 && e.position != "const-type" && m.edges.iter().any(|x| x.from == i && x.via.contains("generic-arg"))))
+            .filter(|e| !(e.via == "direct" && m.nodes[e.to].kind == 6 && m.edges.iter().any(|x| x.from == i && x.via.starts_with("own-param"))))
+            .collect();
+        let ty_of = |e: &Edge, rng: &mut Rng| wrap(e.via, &m.nodes[e.to].name, wrap_name.as_deref(), pair_name.as_deref(), rng);
         match n.kind {
             0 => {
-                s.push_str(&format!("#[typeshare]\n{ren}pub struct {} {{\n    pub own_{}: u32,\n", n.name, n.stem));
+                s.push_str(&format!("#[typeshare]\n{ren}pub struct {}{} {{\n    pub own_{}: u32,\n", n.name, if n.generic { "<P>" } else { "" }, n.stem));
+                if n.generic {
+                    s.push_str(&format!("    pub param_{}: Option<P>,\n", n.stem));
+                }
                 for (k, e) in my.iter().enumerate() {
                     s.push_str(&format!("    pub r{k}_{}: {},\n", n.stem, ty_of(e, rng)));
                 }
@@ -180,6 +202,7 @@ fn render(m: &Model, rng: &mut Rng) -> String {
             }
             3 => s.push_str(&format!("#[typeshare]\n{ren}pub enum {} {{ A{}, B{} }}\n\n", n.name, cap(&n.stem), cap(&n.stem))),
             4 => s.push_str(&format!("#[typeshare]\npub struct {}<T> {{ pub w_{}: T }}\n\n", n.name, n.stem)),
+            6 => s.push_str(&format!("#[typeshare]\npub struct {}<A, B> {{ pub a_{}: A, pub b_{}: B }}\n\n", n.name, n.stem, n.stem)),
             _ => {
                 let t = my.first().map(|e| m.nodes[e.to].name.clone()).unwrap_or("u32".into());
                 s.push_str(&format!("#[typeshare]\npub const {}: {} = 7;\n\n", n.name, t));
